@@ -250,6 +250,16 @@ def _user_case(rng):
             _, row = rng.choice(zs)
             u, v = row[1], row[0]
     a = rng.choice(AMOUNTS) if rng.random() < 0.6 else _rat(rng, 0.1)
+    if u != v and rng.random() < 0.2:
+        # aim at a converted amount of exactly ZERO (a falsy but valid answer of a
+        # converter; with several stacked converters the next one must not be asked)
+        try:
+            t0, r0 = conv(case, views, F(0), u, v)
+            t1, r1 = conv(case, views, F(1), u, v)
+            if r0 is not None and r1 is not None and r1 != r0:
+                a = -F(r0) / (F(r1) - F(r0))
+        except Exception:       # noqa
+            pass
     o = rng.choice(['convert', 'convert', 'via', 'via', 'conveq', 'cmp', 'cmp', 'cmp', 'sorted'])
     if o == 'sorted' and not total:
         o = 'cmp'
